@@ -30,7 +30,7 @@ const (
 	vSecretA   = "secretA"
 	vClientB   = "clientB"
 	vRedirect  = "https://app.example.org/cb"
-	vNonce     = "nonce-123456"
+	vNonce     = "n0nce+q8/Zk3==%41def%2Bghi" // characters a standard-base64 nonce has, and sequences that LOOK percent-encoded
 	vVerifier  = "verifier-0123456789-0123456789-0123456789-abc"
 	vStoreType = 1
 )
@@ -466,7 +466,13 @@ func runC12(t *testing.T, cases []map[string]interface{}, ev *vEvents) {
 		if vStr(c, "audparam") == "allowed" {
 			aud = "https://api.example.org"
 		}
-		code, ar := w.authorizeAud("alice", clientID[vStr(c, "codeclient")], chal, aud)
+		// the user who is logged in at the authorization step: "alice", or (a third of the rows) a user whose name has
+		// capitals in it - names are what they are, the tokens carry them as they are
+		sessUser := "alice"
+		if chal == "plain" {
+			sessUser = "Alice.Mixed"
+		}
+		code, ar := w.authorizeAud(sessUser, clientID[vStr(c, "codeclient")], chal, aud)
 		browserCode := code // what travels through the user's browser
 		if code == "" {
 			panic(fmt.Sprintf("verif harness: authorize failed: %d %s", ar.Status, ar.Body))
@@ -554,6 +560,9 @@ func runC12(t *testing.T, cases []map[string]interface{}, ev *vEvents) {
 				}
 				tk["aud"] = aud
 				tk["sub"] = idc.Subject
+				if idc.Subject == sessUser {
+					tk["sub"] = "alice" // the specification's name for "the user who was logged in"
+				}
 				if idc.Nonce == vNonce {
 					tk["nonce"] = "echo"
 				} else {
@@ -565,6 +574,9 @@ func runC12(t *testing.T, cases []map[string]interface{}, ev *vEvents) {
 			var ui openidConnectUserInfo
 			if ur.Status == 200 && json.Unmarshal(ur.Body, &ui) == nil {
 				tk["userinfo"] = ui.Subject
+				if ui.Subject == sessUser {
+					tk["userinfo"] = "alice"
+				}
 			}
 		}
 		// "nothing else does": artefacts other than a released access token presented to userinfo
